@@ -21,6 +21,7 @@ import NR.Sched
 import NR.Mix
 import NR.Front
 import NR.LatestEst
+import NR.Init
 namespace NR.Driver
 open NR
 
@@ -509,8 +510,29 @@ def stepFront (ws : List String) : String :=
     "front ids " ++ (if Front.validateIds vehicles ms then "accept" else "reject")
   | _ => "bad-op"
 
+/-- `init <L> <stops> <stop:unit,…> <unit:root,…> <fixed stops> <est> <nt> <ntAfter a:b,…> <t> <tAfter> <tVeh>`: what
+`addInitialSolution` makes of one vehicle's initial stops under scripted constraints (NR.Init.run). -/
+def stepInit (ws : List String) : String :=
+  let nats (w : String) : Option (List Nat) := parseNats? (parseCsv w)
+  let pairs (w : String) : Option (List (Nat × Nat)) :=
+    allSome ((parseCsv w).map (fun x => match x.splitOn ":" with
+      | [a, b] => (match a.toNat?, b.toNat? with
+        | some a, some b => some (a, b)
+        | _, _ => none)
+      | _ => none))
+  match ws with
+  | [l, stops, uo, ro, fx, est, nt, nta, t, ta, tv] =>
+    match nats l, nats stops, pairs uo, pairs ro, nats fx, nats est, nats nt, pairs nta, nats t, pairs ta, nats tv with
+    | some l, some stops, some uo, some ro, some fx, some est, some nt, some nta, some t, some ta, some tv =>
+      let look (m : List (Nat × Nat)) (k : Nat) : Nat := ((m.find? (fun p => p.1 = k)).map (·.2)).getD k
+      Init.render { L := l, stops := stops, unitOf := look uo, rootOf := look ro, fixedStops := fx,
+                    sc := { est := est, nt := nt, ntAfter := nta, t := t, tAfter := ta, tVeh := tv } }
+    | _, _, _, _, _, _, _, _, _, _, _ => "bad-op"
+  | _ => "bad-op"
+
 def step (st : State) (line : String) : State × String :=
   match words line with
+  | "init" :: ws => (st, stepInit ws)
   | "front" :: ws => (st, stepFront ws)
   | "mix" :: ws => (st, stepMix ws)
   | "hyp" :: ws => (st, stepHyp st.inst ws)
